@@ -1723,3 +1723,75 @@ Proof.
     rewrite forallb_forall in G. specialize (G m Hm). rewrite forallb_forall in G. specialize (G _ Hin). cbn [snd] in G.
     rewrite E2 in G. discriminate.
 Qed.
+
+(* ===== Part 8: further statements ===================================================================== *)
+(* histories from an arbitrary state *)
+Theorem history_from_any_state d ops d' :
+  run d ops = Ok d' ->
+  forall p c, get_pixel d p = Ok c ->
+    get_pixel d' p = Ok (if in_displayb p then match last_event p (flat_map events ops) with Some v => v | None => c end else None).
+Proof.
+  intros H p c Hc. rewrite get_pixel_gp in Hc. inversion Hc; subst c. rewrite get_pixel_gp. f_equal.
+  destruct (in_displayb p) eqn:E.
+  - apply in_displayb_spec in E. apply (run_ok _ _ _ H p E).
+  - apply gp_outside, in_displayb_false, E.
+Qed.
+
+(* Debug never panics: every raw value of every colour type has a character (its own or '?') *)
+Definition total_ok (m : mapping) : bool :=
+  match m_default m with
+  | Some _ => true
+  | None => forallb (fun v => is_some (lookup v (m_col2c m))) (range 0 (m_nvalues m))
+  end.
+
+Lemma all_total_ok : forallb total_ok all_mappings = true.
+Proof. vm_compute. reflexivity. Qed.
+
+Theorem color_to_char_total m v :
+  In m all_mappings -> 0 <= v < m_nvalues m -> exists ch, color_to_char m v = Ok ch.
+Proof.
+  intros Hm Hv. pose proof all_total_ok as H. rewrite forallb_forall in H. specialize (H m Hm).
+  unfold total_ok in H. unfold color_to_char. destruct (lookup v (m_col2c m)) as [ch|] eqn:El; [eauto|].
+  destruct (m_default m) as [ch|]; [eauto|]. rewrite forallb_forall in H.
+  specialize (H v (proj2 (In_range _ _ _) Hv)). rewrite El in H. discriminate.
+Qed.
+
+Lemma mapM_total {A B} (f : A -> result B) l :
+  (forall x, In x l -> exists y, f x = Ok y) -> exists ys, mapM f l = Ok ys /\ length ys = length l.
+Proof.
+  induction l as [|x l IH]; intros H; cbn [mapM].
+  - exists []. auto.
+  - destruct (H x (or_introl eq_refl)) as [y Ey]. destruct IH as [ys [E L]]; [intros z Hz; apply H; right; exact Hz|].
+    exists (y :: ys). rewrite Ey, E. cbn [bind length]. auto.
+Qed.
+
+Theorem debug_rows_total m d :
+  In m all_mappings ->
+  (forall p v, get_pixel d p = Ok (Some v) -> 0 <= v < m_nvalues m) ->
+  exists rows, debug_rows m d = Ok rows /\ (length rows <= NS)%nat /\ Forall (fun r => length r = NS) rows.
+Proof.
+  intros Hm Hd. rewrite debug_rows_eq.
+  pose proof (chunks_cells d) as HR. cbv zeta in HR. destruct HR as [HRc [HRl HRr]].
+  assert (Forall (fun c => match c with Some v => 0 <= v < m_nvalues m | None => True end) (cells_list d)) as Hval.
+  { unfold cells_list. apply Forall_forall. intros c Hc. apply in_map_iff in Hc. destruct Hc as [i [<- Hi]].
+    apply In_range in Hi. destruct (idx_pt i Hi) as [Ei Hdp]. destruct (cell (cells d) i) as [v|] eqn:Ec; [|exact I].
+    apply (Hd (pt i)). rewrite get_pixel_gp. unfold gp. apply in_displayb_spec in Hdp. rewrite Hdp, Ei, Ec. reflexivity. }
+  remember (cells_list d) as L eqn:EL. clear EL. remember (chunks NS L) as R eqn:ER. clear ER.
+  remember (NS - empty_rows d)%nat as k eqn:Ek. clear Ek.
+  assert (forall r, In r (firstn k R) -> In r R) as Hin by (intros r; apply In_firstn).
+  destruct (mapM_total (mapM (enc m)) (firstn k R)) as [rows [E L']].
+  { intros r Hr. specialize (Hin r Hr).
+    destruct (mapM_total (enc m) r) as [chs [E1 _]]; [|eauto].
+    intros c Hc. assert (In c L) as HcL by (rewrite <- HRc; apply in_concat; exists r; auto).
+    rewrite Forall_forall in Hval. specialize (Hval c HcL). destruct c as [v|]; cbn [enc]; [|eauto].
+    apply color_to_char_total; assumption. }
+  exists rows. split; [exact E|]. split.
+  - rewrite L', firstn_length, HRl. lia.
+  - clear L'. revert rows E. induction (firstn k R) as [|r t IH]; intros rows E; cbn [mapM] in E.
+    + inversion E. constructor.
+    + destruct (mapM (enc m) r) as [chs|] eqn:E1; cbn [bind] in E; [|discriminate].
+      destruct (mapM (mapM (enc m)) t) as [rest|] eqn:E2; cbn [bind] in E; [|discriminate]. inversion E; subst rows.
+      constructor.
+      * rewrite (mapM_length _ _ _ E1). rewrite Forall_forall in HRr. apply HRr, Hin. left. reflexivity.
+      * apply IH; [intros r' Hr'; apply Hin; right; exact Hr'|reflexivity].
+Qed.
